@@ -26,13 +26,22 @@ import (
 //
 // https://docs.microsoft.com/en-us/typography/opentype/spec/cmap#format-0-byte-encoding-table
 func decodeFormat0(data []byte, code2rune func(c int) rune) (Subtable, error) {
-	if code2rune == nil {
-		code2rune = unicode
-	}
-
 	data = data[6:]
 	if len(data) != 256 {
 		return nil, fmt.Errorf("cmap: format 0: expected 256 bytes, got %d", len(data))
+	}
+
+	if code2rune != nil {
+		// The codes of the subtable are not Unicode code points (Macintosh
+		// subtable).  A Format0 is indexed by the rune itself, so the
+		// translated mapping is returned as a Format4 (as decodeFormat6 does).
+		res := Format4{}
+		for c, g := range data {
+			if g != 0 {
+				res[uint16(code2rune(c))] = glyph.ID(g)
+			}
+		}
+		return res, nil
 	}
 
 	res := &Format0{}
